@@ -47,6 +47,41 @@ C01EvalFails(c) ==
               C01TablePartial(o.single[j], tt, labels, Reach(ck, {o.single[j].out}))>>
      >>)
 
+(* kind "evaldeep": a circuit with one path of more than a thousand gates.  c.order is a witness order (operands first,
+   checked on the way), c.sample the gates whose recorded values are compared (the outputs, every 97th gate, the last
+   ones); reachability is computed along the order, everything is linear in the number of gates. *)
+ReachAlong(G, order, S) ==
+  FoldLeft(LAMBDA seen, j : LET l == order[Len(order) + 1 - j] IN IF l \in seen THEN seen \cup SeqSet(G[l].o) ELSE seen,
+           S, [j \in 1 .. Len(order) |-> j])
+C01DeepFails(c) ==
+  LET ck == c.c
+      G == AsFcn(ck.g)
+      ev == EvalChecked(G, c.order, InputCols(ck), AllRows(Len(ck.i)))
+      tt == ev.v
+      labels == SeqSet(c.sample)
+      outTT == [k \in DOMAIN ck.o |-> tt[ck.o[k]]]
+      o == c.obs
+      bad == SeqSet(o.bad)
+  IN IF ~(ev.ok /\ SeqSet(ck.o) \cup labels \subseteq DOMAIN tt) THEN {}       \* witness order unusable: not decided (DRIFT)
+     ELSE FailSet(<<
+       <<"no-exception-or-non-boolean", bad = {}>>,
+       <<"evaluate", RowSets(o.evaluate) = outTT>>,
+       <<"evaluate_at", RowSets(o.evaluate_at) = outTT>>,
+       <<"get_truth_table", RowSets(o.tt) = outTT>>,
+       <<"evaluate_circuit_outputs", C01TableExact(o.outs, tt, SeqSet(ck.o))>>,
+       <<"evaluate_full_circuit", C01TableExact(o.full, tt, labels)>>,
+       <<"get_gates_truth_table", C01TableExact(o.gtt, tt, labels)>>,
+       <<"evaluate_circuit", C01TablePartial(o.circ, tt, labels, labels \cap ReachAlong(G, c.order, SeqSet(ck.o)))>>,
+       <<"bench-conversion-denotes-the-same-function", ~Has(o, "bench") \/ RowSets(o.bench) = outTT>>,
+       <<"bench-conversion-keeps-every-gate-value", ~Has(o, "bench_full") \/ C01TableExact(o.bench_full, tt, labels)>>,
+       <<"evaluate_circuit_single",
+           \A j \in DOMAIN o.single :
+              C01TablePartial(o.single[j], tt, labels, labels \cap ReachAlong(G, c.order, {o.single[j].out}))>>
+     >>)
+C01DeepDrift(c) ==
+  LET ev == EvalChecked(AsFcn(c.c.g), c.order, InputCols(c.c), AllRows(Len(c.c.i)))
+  IN IF ev.ok THEN {} ELSE {"deep-case-witness-order-not-operands-first(undecided)"}
+
 C01OpTableFails(c) ==
   FailSet(<<
     <<"optable-" \o c.who,
